@@ -31,7 +31,7 @@ func layoutRuns(mask, n int) []memBlock {
 func init() {
 	checks["C15"] = eng.Check{
 		Hist:        true,
-		Rule:        "Bytes memory. (a) creation: every ordered list of <=3 non-empty blocks (begin 0..7, length 1..3, distinct bytes) incl. overlapping, adjacent and unsorted ones: NewBytes fails iff two blocks share an address, otherwise the full read surface (every Load/Missing for a in 0..11, w in 1..3, Blocks) equals the byte map and the given slices are not aliased — with the blocks given as separately allocated slices and as windows of one larger buffer (slices with spare capacity, as when carved from a file image). (b) histories: for each of the 64 layouts over addresses 0..5 (one block per run) and a layout split into adjacent blocks, every history of <=2 (quick) / <=3 (thorough) constant stores (addr 0..7, width 1..3, constant exactly/narrower/wider than the write, or equal to the bytes already present) on a fresh real Bytes; full surface after each history; histories of >=2 stores in three read/write interleavings (reads after every store, none between the stores, none before the end); digests of constants handed in and expressions returned re-checked. Reads of every width 1..72 from an 80-byte block before and after narrow and wide (33, 64, 255 bytes) stores into, across and beyond it. Non-trivial = history with >=2 stores or creation from >=2 blocks.",
+		Rule:        "Bytes memory. (a) creation: every ordered list of <=3 non-empty blocks (begin 0..7, length 1..3, distinct bytes) incl. overlapping, adjacent and unsorted ones: NewBytes fails iff two blocks share an address, otherwise the full read surface (every Load/Missing for a in 0..11, w in 1..3, Blocks) equals the byte map and the given slices are not aliased — with the blocks given as separately allocated slices and as windows of one larger buffer (slices with spare capacity, as when carved from a file image). (b) histories: for each of the 64 layouts over addresses 0..5 (one block per run) and a layout split into adjacent blocks, every history of <=2 (quick) / <=3 (thorough) constant stores (addr 0..7, width 1..3, constant exactly/narrower/wider than the write, or equal to the bytes already present) on a fresh real Bytes; full surface after each history; histories of >=2 stores in three read/write interleavings (reads after every store, none between the stores, none before the end); digests of constants handed in and expressions returned re-checked. Reads of every width 1..72 from an 80-byte block before and after narrow and wide (33, 64, 255 bytes) stores into, across and beyond it. Plus 20 initial blocks (some adjacent) handed to NewBytes in sorted, reversed, interleaved and rotated order, read and written across. Non-trivial = history with >=2 stores or creation from >=2 blocks.",
 		Assumptions: []string{"initial blocks are non-empty", "only constants are stored (documented precondition of Bytes.Store)", "no address wrap"},
 		Run: func(r *eng.Run) {
 			// (a) creation
@@ -130,6 +130,42 @@ func init() {
 				{{2, 33, "const"}}, {{40, 64, "narrow"}}, {{70, 33, "wide"}, {1, 2, "const"}}, {{0, 255, "const"}, {100, 3, "const"}}, {{79, 255, "narrow"}}} {
 				memDoRW(r, memCase{Mem: "bytes", Blocks: []memBlock{{0, long}}, Ops: ops, MaxA: 12, MaxW: 72})
 			}
+			// 20 initial blocks (more than a library sort handles by insertion; some adjacent) handed
+			// to NewBytes in sorted, reversed, interleaved and rotated order, then written across
+			{
+				const nm = 20
+				var many []memBlock
+				for i := 0; i < nm; i++ {
+					a := i * 5
+					if i%3 == 2 {
+						a-- // directly adjacent to its predecessor
+					}
+					many = append(many, memBlock{a, fmt.Sprintf("%02x%02x%02x%02x", 0x40+i, 0x60+i, 0x80+i, 0xa0+i)[:2*(3+i%2)]})
+				}
+				perms := []func(i int) int{
+					func(i int) int { return i },
+					func(i int) int { return nm - 1 - i },
+					func(i int) int {
+						if i < nm/2 {
+							return 2 * i
+						}
+						return 2*(i-nm/2) + 1
+					},
+				}
+				for k := 1; k < nm; k += 3 {
+					k := k
+					perms = append(perms, func(i int) int { return (i + k) % nm })
+				}
+				for _, pf := range perms {
+					var bl []memBlock
+					for i := 0; i < nm; i++ {
+						bl = append(bl, many[pf(i)])
+					}
+					for _, ops := range [][]memOp{nil, {{7, 4, "const"}}, {{2, 64, "const"}, {50, 3, "const"}}} {
+						memDoRW(r, memCase{Mem: "bytes", Blocks: bl, Ops: ops, MaxA: 104, MaxW: 4})
+					}
+				}
+			}
 			memTopEnd(r, []memCase{{Mem: "bytes"}})
 			r.Sample(memCase{Mem: "bytes", Blocks: layoutRuns(0b101100, 6), Ops: []memOp{{0, 2, "const"}, {1, 3, "wide"}}, MaxA: 11, MaxW: 3})
 		},
@@ -138,7 +174,7 @@ func init() {
 
 	checks["C16"] = eng.Check{
 		Hist:        true,
-		Rule:        "Overlay(base, Sparse): base = each of the 64 Bytes layouts over addresses 0..5 and 4 pre-filled (fragmented, symbolic) Sparse memories and 3 bases holding zero bytes; every history of <=2 (quick) / <=3 (thorough) stores (addr 0..5, width 1..3 (+4 quick depth<=2), constant/symbolic/narrower values and constants equal to the base layer's content at that place) through the real Overlay; after each history every Load/Missing for a in 0..7, w in {1,2,3,4,6,8} and Blocks() compared with the layered byte map (upper layer wins, else base), and the base's own full surface compared with its initial model; plus reads of every width 1..72 over 9 layouts whose layer changes lie at offsets around 32 and 64 of the read. On the sparse and zero bases and on every 16th (thorough: every) Bytes layout the histories of <=2 stores use the wide alphabet and are run in three read/write interleavings (reads after every store, none between the stores, none before the end). Non-trivial = history with >=2 stores.",
+		Rule:        "Overlay(base, Sparse): base = each of the 64 Bytes layouts over addresses 0..5 and 4 pre-filled (fragmented, symbolic) Sparse memories and 3 bases holding zero bytes; every history of <=2 (quick) / <=3 (thorough) stores (addr 0..5, width 1..3 (+4 quick depth<=2), constant/symbolic/narrower values and constants equal to the base layer's content at that place) through the real Overlay; after each history every Load/Missing for a in 0..7, w in {1,2,3,4,6,8} and Blocks() compared with the layered byte map (upper layer wins, else base), and the base's own full surface compared with its initial model; plus reads of every width 1..72 over 9 layouts whose layer changes lie at offsets around 32 and 64 of the read. On the sparse and zero bases and on every 16th (thorough: every) Bytes layout the histories of <=2 stores use the wide alphabet and are run in three read/write interleavings (reads after every store, none between the stores, none before the end). On the sparse, the zero and every 8th Bytes base the histories are also run over a base that retains ONE block list and returns it from every Blocks() call (the base's surface, incl. that list, must be unchanged afterwards). Non-trivial = history with >=2 stores.",
 		Assumptions: []string{"no address wrap", "values judged under 3 valuations"},
 		Run: func(r *eng.Run) {
 			alpha := memAlpha(seq(0, 5), seq(1, 3), []string{"const", "sym", "basecopy"})
@@ -191,6 +227,17 @@ func init() {
 						}
 					})
 				}
+			}
+			// a base that retains its block list (an implementation outside the package may): the
+			// histories of <=2 stores on the sparse, the zero and every 8th Bytes base
+			for bi, b := range bases {
+				if bi < 64 && bi%8 != 5 {
+					continue
+				}
+				b := b
+				histories(r, alpha, 2, func(ops []memOp) {
+					memDo(r, memCase{Mem: "overlay", Base: b.kind, Blocks: b.blocks, Pre: b.pre, Ops: append([]memOp{}, ops...), Retain: true, MaxA: 7, MaxW: 4})
+				})
 			}
 			// top of the address space
 			for _, b := range bases[60:] {
